@@ -1,4 +1,5 @@
 mod c11;
+mod c16;
 mod extract;
 mod model;
 mod report;
@@ -16,6 +17,7 @@ fn main() {
     match args[0].as_str() {
         "extract" => extract::main(&args[1..]),
         "C11" => c11::main(&args[1..]),
+        "C16" => c16::main(&args[1..]),
         o => {
             eprintln!("unknown subcommand {o}");
             std::process::exit(2);
